@@ -10,21 +10,21 @@ def regroupPt (o : Oracles) (c : Ctx) (d : LokiDb) (q : LogQuery) (g : Grouping)
   ⟨kl.1, kl.2, p.ts, p.value⟩
 
 /-- aggregate the points of every (series, timestamp), in order of first occurrence -/
-def aggCore (fn : AggFn) (pts : List Pt) : List Pt :=
+def aggCore (o : Oracles) (fn : AggFn) (pts : List Pt) : List Pt :=
   (groupsBy (fun (p : Pt) => (p.key, p.ts)) pts).filterMap (fun g =>
-    (aggVal fn (g.2.map (·.value))).map (fun v => ⟨g.1.1, (g.2.head?.map (·.labels)).getD .null, g.1.2, v⟩))
+    (aggVal o fn (g.2.map (·.value))).map (fun v => ⟨g.1.1, (g.2.head?.map (·.labels)).getD .null, g.1.2, v⟩))
 
 theorem aggStage_eq (o : Oracles) (c : Ctx) (d : LokiDb) (q : LogQuery) (a : VecAgg) (pts : List Pt) :
     aggStage o c d q a pts =
-      aggCore a.fn (pts.map (regroupPt o c d q ((chosenGrouping a.byPrefix a.bySuffix).getD ⟨true, []⟩))) := by
+      aggCore o a.fn (pts.map (regroupPt o c d q ((chosenGrouping a.byPrefix a.bySuffix).getD ⟨true, []⟩))) := by
   unfold aggStage aggCore groupsBy regroupPt
   simp only [List.map_map, Function.comp_def, List.filterMap_map, List.filter_map, List.head?_map, Option.map_map]
 
 /-- the aggregate of a non-empty group of a modelled function -/
-def aggValD (fn : AggFn) (vs : List Rat) : Rat := (aggVal fn vs).getD 0
+def aggValD (o : Oracles) (fn : AggFn) (vs : List Rat) : Rat := (aggVal o fn vs).getD 0
 
-theorem aggVal_some (fn : AggFn) (vs : List Rat) (hne : vs ≠ []) (hfn : fn ≠ .stddev ∧ fn ≠ .stdvar) :
-    aggVal fn vs = some (aggValD fn vs) := by
+theorem aggVal_some (o : Oracles) (fn : AggFn) (vs : List Rat) (hne : vs ≠ []) :
+    aggVal o fn vs = some (aggValD o fn vs) := by
   cases vs with
   | nil => exact absurd rfl hne
   | cons v rest => cases fn <;> simp_all [aggVal, aggValD]
@@ -53,14 +53,14 @@ theorem ratsOf_of_numOf (vals : List Val) (vs : List Rat) (h : vals.map numOf? =
       rw [toRat_of_numOf h.1, this]
       rfl
 
-theorem aggCore_eq (fn : AggFn) (hfn : fn ≠ .stddev ∧ fn ≠ .stdvar) (pts : List Pt) :
-    aggCore fn pts = (groupsBy (fun (p : Pt) => (p.key, p.ts)) pts).map (fun g =>
-      ⟨g.1.1, (g.2.head?.map (·.labels)).getD .null, g.1.2, aggValD fn (g.2.map (·.value))⟩) := by
+theorem aggCore_eq (o : Oracles) (fn : AggFn) (pts : List Pt) :
+    aggCore o fn pts = (groupsBy (fun (p : Pt) => (p.key, p.ts)) pts).map (fun g =>
+      ⟨g.1.1, (g.2.head?.map (·.labels)).getD .null, g.1.2, aggValD o fn (g.2.map (·.value))⟩) := by
   unfold aggCore
   apply filterMap_eq_map_of
   intro g hg
   obtain ⟨⟨a, rest, hgr, _⟩, _⟩ := groupsBy_head _ pts g hg
-  rw [aggVal_some fn _ (by rw [hgr]; simp) hfn]
+  rw [aggVal_some o fn _ (by rw [hgr]; simp)]
   rfl
 
 /-! ### `AggOpPlanner`'s select -/
@@ -82,9 +82,8 @@ theorem agg_aliasVals (o : Oracles) (env : Env) (fn : AggFn) (r : Row) (h : StdR
 
 /-- the value `AggOpPlanner` computes over the numeric cells of a group is the defined aggregate -/
 theorem agg_value_num (o : Oracles) (env : Env) (rows : List Row) (first : Row) (vs : List Rat) (fn : AggFn)
-    (h : rows.map (fun r => numOf? (r.get "lra_main.value")) = vs.map some) (hne : vs ≠ [])
-    (hfn : fn ≠ .stddev ∧ fn ≠ .stdvar) :
-    numOf? (evalAgg o env rows first (.col (aggValue fn) "value")) = some (aggValD fn vs) := by
+    (h : rows.map (fun r => numOf? (r.get "lra_main.value")) = vs.map some) (hne : vs ≠ []) :
+    numOf? (evalAgg o env rows first (.col (aggValue fn) "value")) = some (aggValD o fn vs) := by
   have hr : ratsOf (rows.map (fun r => r.get "lra_main.value")) = some vs := by
     apply ratsOf_of_numOf
     rw [List.map_map]
@@ -96,13 +95,14 @@ theorem agg_value_num (o : Oracles) (env : Env) (rows : List Row) (first : Row) 
     | nil => exact absurd rfl hne
     | cons v rest => exact ⟨v, rest, rfl⟩
   cases fn <;>
-    simp [aggValue, aggVal, aggValD, evalAgg, aggCall, hr, sumAgg, avgAgg, minAgg, maxAgg, numOf?, ratSum, ratSumL, hl] at hfn ⊢
+    simp [aggValue, aggVal, aggValD, evalAgg, aggCall, hr, sumAgg, avgAgg, minAgg, maxAgg, varPopAgg, stddevPopAgg, numOf?, ratSum,
+      ratSumL, hl]
 
-theorem agg_group_row (o : Oracles) (env : Env) (fn : AggFn) (hfn : fn ≠ .stddev ∧ fn ≠ .stdvar)
+theorem agg_group_row (o : Oracles) (env : Env) (fn : AggFn)
     (A : List Row) (hstd : ∀ r ∈ A, StdRow r) (B : List Pt) (hne : A ≠ []) (hAB : A.map rview = B.map Pt.view) :
     rview (grow o env (aggCols fn) (A.map (qualify "lra_main"))) =
       Pt.view ⟨(B.head?.map (·.key)).getD .null, (B.head?.map (·.labels)).getD .null, (B.head?.map (·.ts)).getD 0,
-        aggValD fn (B.map (·.value))⟩ := by
+        aggValD o fn (B.map (·.value))⟩ := by
   obtain ⟨r0, A', rfl⟩ : ∃ r0 A', A = r0 :: A' := by
     cases A with
     | nil => exact absurd rfl hne
@@ -125,7 +125,7 @@ theorem agg_group_row (o : Oracles) (env : Env) (fn : AggFn) (hfn : fn ≠ .stdd
       have e := get_q "lra_main" "value" "lra_main.value" rfl r (hstd r hr)
       simp [get_cons, e]
       have := congrArg (fun v => v.2.2.1) hv
-      simpa [rview, Pt.view] using this) (by simp) hfn
+      simpa [rview, Pt.view] using this) (by simp)
   have e1 := get_unqualified "lra_main" "fingerprint" r0 (by simp [Std5])
   have e2 := get_q "lra_main" "timestamp_ns" "lra_main.timestamp_ns" rfl r0 hs0
   have e3 := get_q "lra_main" "labels" "lra_main.labels" rfl r0 hs0
@@ -158,9 +158,9 @@ theorem havingFilter_sub (o : Oracles) (env : Env) (hv : Option Expr) (T : Table
 /-- **vector aggregation (AggOpPlanner).** Over the points of `lra_main`, the select returns one row per
     (series, timestamp) in order of first occurrence, carrying the defined aggregate of the group's values and the
     labels of its first member; the optional HAVING keeps the rows satisfying the comparison. -/
-theorem agg_eval (o : Oracles) (db : Db) (env : Env) (fn : AggFn) (hfn : fn ≠ .stddev ∧ fn ≠ .stdvar)
+theorem agg_eval (o : Oracles) (db : Db) (env : Env) (fn : AggFn)
     (T : Table) (pts : List Pt) (h : Rep T pts) (hT : env.lookup (.named "lra_main") = some T) (cm : Option Comparison) :
-    Rep (evalBodyA o db env (aggBody fn (cmpHaving cm))) (cmpStage cm (aggCore fn pts)) := by
+    Rep (evalBodyA o db env (aggBody fn (cmpHaving cm))) (cmpStage cm (aggCore o fn pts)) := by
   unfold aggBody
   rw [evalBodyA_grouped o db env _ (aggCols fn) _ (T.map (qualify "lra_main"))
     (by simp [sourceRowsA, sourceRows, hT, Alias.text]) _ rfl]
@@ -179,11 +179,11 @@ theorem agg_eval (o : Oracles) (db : Db) (env : Env) (fn : AggFn) (hfn : fn ≠ 
       (by intro a b hab; simp at hab; exact Prod.ext hab.1 hab.2) T pts h.view
       (fun A => rview (grow o env (aggCols fn) (A.map (qualify "lra_main"))))
       (fun B => Pt.view ⟨(B.head?.map (·.key)).getD .null, (B.head?.map (·.labels)).getD .null, (B.head?.map (·.ts)).getD 0,
-        aggValD fn (B.map (·.value))⟩)
-      (fun A B hne hA _ _ hAB => agg_group_row o env fn hfn A (fun r hr => h.std r (hA r hr)) B hne hAB)
+        aggValD o fn (B.map (·.value))⟩)
+      (fun A B hne hA _ _ hAB => agg_group_row o env fn A (fun r hr => h.std r (hA r hr)) B hne hAB)
     rw [List.map_map] 
     simp only [Function.comp_def] at this ⊢
-    rw [this, aggCore_eq fn hfn]
+    rw [this, aggCore_eq o fn]
     have henc := groupsBy_enc (fun (p : Pt) => (p.key, p.ts)) (fun (k : Val × Int) => (k.1, Val.int k.2))
       (by intro a b hab; simp at hab; exact Prod.ext hab.1 hab.2) pts
     simp only [Pt.view] at henc ⊢
